@@ -80,6 +80,11 @@ func c08step(helper, target string, variant ...int) fsx.Step {
 			st.K, st.P, st.P2 = "SubRename", "d", []string{"x", "x", "missing"}[variant[0]%3]
 			return st
 		}
+		if helper == "Symlink" && len(variant) > 0 && variant[0] > 0 {
+			// through a Sub view of "d": a link x-lnk -> x (or to a missing name), read back through the view
+			st.K, st.P, st.P2 = "SubSymlink", "d", []string{"x", "x", "missing"}[variant[0]%3]
+			return st
+		}
 		st.P, st.P2 = "f", target
 		if target == "f" {
 			st.P, st.P2 = "d", "renamed"
@@ -170,7 +175,7 @@ func c08build() {
 									c08list = append(c08list, c08case{Base: base, Helper: h, Off: off, FileOff: fo, ArgIndex: ai, Variant: v})
 								}
 							}
-							if h == "Rename" && ai == 0 {
+							if (h == "Rename" || h == "Symlink") && ai == 0 {
 								for v := 1; v <= 2; v++ {
 									c08list = append(c08list, c08case{Base: base, Helper: h, Off: off, FileOff: fo, ArgIndex: ai, Variant: v})
 								}
